@@ -89,6 +89,13 @@ Definition overview_levels (req : option (list Z)) (w h : Z) : list Z :=
   | None => if Z.min w h <? 512 then [] else [2; 4; 8; 16; 32]
   end.
 
+(** oracle contract (GDAL, validated by the harness): an overview of factor [k]
+    of a [h] x [w] image has ceil(h/k) x ceil(w/k) pixels; used to recognise the
+    requested levels in a written file *)
+Definition gdal_overview_shape (h w k : Z) : Z * Z := ((h + k - 1) / k, (w + k - 1) / k).
+Definition overview_shapes (req : option (list Z)) (w h : Z) : list (Z * Z) :=
+  map (gdal_overview_shape h w) (overview_levels req w h).
+
 (** write_cog: nodata keyword, else the array's attrs['nodata'] *)
 Definition nodata_of {A} (kw attr : option A) : option A :=
   match kw with Some v => Some v | None => attr end.
